@@ -366,6 +366,13 @@ def _run_pool(tasks, jobs, t0):
                     except Exception:
                         pass
                     w.update(spawn())
+                if r.get('stuck') and not t[5].get('retried'):
+                    # z3 ignored its timeout and the interrupt (seen under heavy machine load): run the task once more in a fresh worker before
+                    # reporting it as undecided
+                    t2 = (t[0], t[1], t[2], t[3], t[4], dict(t[5], retried=True))
+                    pending.append((len(results) + len(pending), t2))
+                    w['task'] = None
+                    continue
                 results.append(r)
                 done += 1
                 w['task'] = None
